@@ -178,6 +178,7 @@ def main():
     ap.add_argument("--workers", type=int, default=3)
     ap.add_argument("--seed", type=int, default=1)
     ap.add_argument("--only", default="")
+    ap.add_argument("--rerun", default="", help="results file: run again the mutants that survived there")
     a = ap.parse_args()
     rnd = random.Random(a.seed)
     allm = []
@@ -196,6 +197,20 @@ def main():
                 break
         allm += pick
     rnd.shuffle(allm)
+    suffix = ""
+    if a.rerun:
+        want = set()
+        for l in open(a.rerun):
+            r = json.loads(l)
+            if r["outcome"].startswith("surv"):
+                want.add((r["file"], r["line"], r["after"]))
+        allm = []
+        for rel in TARGETS:
+            for m in mutants_of(os.path.join("/repo", rel), rel):
+                if (m["file"], m["line"], m["after"]) in want:
+                    allm.append(m)
+                    want.discard((m["file"], m["line"], m["after"]))
+        suffix = "-rerun"
     print("mutants:", len(allm))
     os.makedirs(os.path.join(HERE, "mutsweep"), exist_ok=True)
     wts = []
@@ -204,7 +219,7 @@ def main():
         sh("git -C /repo worktree add -q --detach %s HEAD" % wt)
         wts.append(wt)
     free = list(wts)
-    outfh = open(os.path.join(HERE, "mutsweep", "results-seed%d.jsonl" % a.seed), "a")
+    outfh = open(os.path.join(HERE, "mutsweep", "results-seed%d%s.jsonl" % (a.seed, suffix)), "a")
 
     def job(mu):
         with lock:
